@@ -26,6 +26,7 @@ RULE = ("weak-reference census: every streaming tool (zip, zip strict, map, filt
         "one evaluation = one stream run; non-trivial = every run (N >= 60); distinct = (tool, N, parameters)")
 RULE += (' Also: chain.from_iterable over a long lazy stream of pages (closeable class iterators keeping their records; plain iterators); groupby without key / identity key read group by group; tee with a real lock where a started child is closed while its sibling holds the lock mid-fetch and that close is cancelled at each suspension point; all streams report len() == 0 (current backlog).')
 RULE += (' Also: sized, lazily produced synchronous datasets as sources of every streaming tool.')
+RULE += (' Also: every tee pattern also over a source without aclose.')
 ASSUMPTIONS = ["the bound's constant was read off the unchanged tree with slack; a buffering tool grows linearly and "
                "crosses it within a few steps, so the verdict does not depend on the exact constant"]
 EXHAUSTIVE = {"quick": False, "thorough": False}
@@ -90,8 +91,9 @@ class Census:
             self.viol = f"{n} served items alive at {where} (bound {self.bound})"
 
 
-class Stream:
-    """Async iterator creating fresh items on demand; census sampled at every pull."""
+class BareStream:
+    """Async iterator creating fresh items on demand; census sampled at every pull.  Nothing but ``__aiter__`` and
+    ``__anext__`` (a feed / queue adapter): there is nothing to close."""
 
     def __init__(self, census, n, make=None, name="s"):
         self.census, self.n, self.i, self.name = census, n, 0, name
@@ -116,6 +118,10 @@ class Stream:
         else:
             self.census.track(item)
         return item
+
+
+class Stream(BareStream):
+    """... with an ``aclose``."""
 
     async def aclose(self):
         pass
@@ -262,6 +268,10 @@ def cases(tier, seed, shard, nshards):
             idx += 1
             if idx % nshards == shard:
                 yield {"tool": "tee", "pattern": pat, "n": n}
+            if not pat.startswith("locked_"):
+                idx += 1
+                if idx % nshards == shard:
+                    yield {"tool": "tee", "pattern": pat, "n": n, "source": "bare"}
 
 
 def run_tool(case, stats):
@@ -371,7 +381,9 @@ def run_tee(case, stats):
     nchild = 3 if pat == "three_children" else 2
     lead = 8 if pat in ("lead8", "lag_then_close") else 1
     census = Census(2 + 2 + lead + nchild)
-    stream = Stream(census, n)
+    stream = BareStream(census, n) if case.get("source") == "bare" else Stream(census, n)
+    if case.get("source") == "bare":
+        stats["tee_runs_over_a_source_without_aclose"] += 1
     info = {}
 
     async def main():
